@@ -6,6 +6,7 @@ import (
 	"go/types"
 	"sort"
 	"strings"
+	"unicode/utf8"
 
 	"golang.org/x/tools/go/ssa"
 	"golang.org/x/tools/go/ssa/ssautil"
@@ -174,6 +175,9 @@ type Own struct {
 	c           *Ctx
 	prog        *ssa.Program
 	retMemo     map[retKey]OSet
+	retPrev     map[retKey]OSet // the previous round of the summary fixpoint (see warm)
+	wrPrev      map[*ssa.Function]map[paramPath]writeInfo
+	WarmRounds  int
 	inflightRet map[retKey]bool
 	wrMemo      map[*ssa.Function]map[paramPath]writeInfo
 	retainM     map[*ssa.Function]map[int]string
@@ -189,8 +193,50 @@ type writeInfo struct {
 func (c *Ctx) Own() *Own {
 	if c.own == nil {
 		c.own = &Own{c: c, prog: c.SSA(), retMemo: map[retKey]OSet{}, inflightRet: map[retKey]bool{}, wrMemo: map[*ssa.Function]map[paramPath]writeInfo{}, retainM: map[*ssa.Function]map[int]string{}, inflight: map[*ssa.Function]bool{}}
+		c.own.warm()
 	}
 	return c.own
+}
+
+// warm computes the callee summaries (which parameters a function writes through, where its results come
+// from) for every function of the module as a fixpoint, in one canonical order, before any rule asks for one.
+// The summaries are memoised and recursion is cut where a function is already being summarised; without this
+// a summary computed inside such a cut was memoised in its truncated form, so what a rule saw depended on
+// which rules had run before it (`-prop C19` saw fewer writes than `-prop all`). Each round recomputes every
+// summary, answering a cut with the previous round's summary instead of 'nothing known'; the facts only grow,
+// and the rounds stop when a round adds nothing.
+func (o *Own) warm() {
+	fns := o.moduleFuncs()
+	size := func() int {
+		n := 0
+		for _, m := range o.wrMemo {
+			n += 1 + len(m)
+		}
+		for _, s := range o.retMemo {
+			n += 1 + len(s)
+		}
+		return n
+	}
+	last := -1
+	for round := 0; round < 12; round++ {
+		o.wrPrev, o.retPrev = o.wrMemo, o.retMemo
+		o.wrMemo, o.retMemo = map[*ssa.Function]map[paramPath]writeInfo{}, map[retKey]OSet{}
+		for _, fn := range fns {
+			o.paramWrites(fn, 0)
+			res := fn.Signature.Results()
+			for i := 0; i < res.Len(); i++ {
+				if isRefLike(res.At(i).Type()) {
+					o.retSummaryOf(fn, 0, i, nil)
+				}
+			}
+		}
+		o.WarmRounds = round + 1
+		n := size()
+		if n == last {
+			break
+		}
+		last = n
+	}
 }
 
 type cellPath []string // field keys crossed from the alloc root
@@ -731,8 +777,11 @@ func (o *Own) retSummaryOf(fn *ssa.Function, depth int, idx int, path []string) 
 	if s, ok := o.retMemo[key]; ok {
 		return s
 	}
-	if fn.Blocks == nil || depth >= ownMaxDepth || o.inflightRet[key] {
+	if fn.Blocks == nil {
 		return nil
+	}
+	if depth >= ownMaxDepth || o.inflightRet[key] {
+		return o.retPrev[key] // nil in the first round: 'nothing known'
 	}
 	o.inflightRet[key] = true
 	defer delete(o.inflightRet, key)
@@ -858,7 +907,11 @@ func (o *Own) writesOf(fn *ssa.Function, depth int) []Write {
 						tgt := x.originPath(cc.Args[k.Idx], splitPath(k.Path), in)
 						what := pw[k].What
 						if len(what) > 160 {
-							what = what[:160] + "…"
+							cut := 160
+							for cut > 0 && !utf8.RuneStart(what[cut]) {
+								cut--
+							}
+							what = what[:cut] + "…"
 						}
 						addSet(in, fmt.Sprintf("call %s (writes through its parameter #%d%s: %s)", callee.Name(), k.Idx, pathSuffix(k.Path), what), tgt)
 					}
@@ -907,8 +960,11 @@ func (o *Own) paramWrites(fn *ssa.Function, depth int) map[paramPath]writeInfo {
 	if m, ok := o.wrMemo[fn]; ok {
 		return m
 	}
-	if fn.Blocks == nil || depth >= ownMaxDepth || o.inflight[fn] {
+	if fn.Blocks == nil {
 		return nil
+	}
+	if depth >= ownMaxDepth || o.inflight[fn] {
+		return o.wrPrev[fn]
 	}
 	o.inflight[fn] = true
 	ws := o.writesOf(fn, depth)
